@@ -6,8 +6,10 @@ import (
 	"encoding/json"
 	"fmt"
 	apierrors "k8s.io/apimachinery/pkg/api/errors"
+	"k8s.io/apimachinery/pkg/watch"
 	"reflect"
 	"strings"
+	"time"
 
 	appsv1 "k8s.io/api/apps/v1"
 	apiequality "k8s.io/apimachinery/pkg/api/equality"
@@ -313,6 +315,9 @@ func hijackRT(raws []json.RawMessage) map[string]interface{} {
 		})
 		hc := helper.NewHijackClient(kubefake.NewSimpleClientset(), ascs)
 		sts := hc.AppsV1().StatefulSets(ns)
+		// a watch opened through the client before anything is written: every event must carry an apps/v1 StatefulSet
+		wch, werr := sts.Watch(ctx, metav1.ListOptions{})
+		out["err_watch"] = errStr(werr)
 		var steps []map[string]interface{}
 		for _, raw := range raws {
 			st := map[string]interface{}{}
@@ -405,6 +410,36 @@ func hijackRT(raws []json.RawMessage) map[string]interface{} {
 			}
 			r, err := sts.Get(ctx, "no-such-set", metav1.GetOptions{})
 			out["ghost_get"] = map[string]interface{}{"err": errStr(err), "notfound": apierrors.IsNotFound(err), "result_nil": r == nil}
+		}
+		if werr == nil && len(order) > 0 {
+			// delete the last object through the client, then read what the watch saw
+			last := order[len(order)-1]
+			out["err_delete"] = errStr(sts.Delete(ctx, last, metav1.DeleteOptions{}))
+			order = order[:len(order)-1]
+			evs := []map[string]interface{}{}
+			deadline := time.After(400 * time.Millisecond)
+		loop:
+			for {
+				select {
+				case ev, ok := <-wch.ResultChan():
+					if !ok {
+						break loop
+					}
+					e := map[string]interface{}{"type": string(ev.Type), "gotype": fmt.Sprintf("%T", ev.Object)}
+					if b, ok := ev.Object.(*appsv1.StatefulSet); ok {
+						e["api"] = b.APIVersion
+						e["name"] = b.Name
+					}
+					evs = append(evs, e)
+					if ev.Type == watch.Deleted {
+						break loop
+					}
+				case <-deadline:
+					break loop
+				}
+			}
+			wch.Stop()
+			out["watch_events"] = evs
 		}
 		l, err := sts.List(ctx, metav1.ListOptions{})
 		out["err_list"] = errStr(err)
